@@ -275,7 +275,89 @@ def _cae_sample(ctx, hfn):
 
 # ------------------------------------------------------------------------------ C12 structural
 
+def _nan_guard_hir(facts, fn_path):
+    """On the parser with crate-local calls inlined: every `TimingPoint::new(_, beat_len, ..)` is preceded by an
+    `if [g &&] beat_len.is_nan() { return Err(..) }` that (1) is evaluated whenever the constructor is (it does not
+    sit in a branch the constructor is not in; extra conjuncts g are among the constructor's own guards) and (2)
+    tests the value handed to the constructor.  An early return inside an inlined helper counts only if the
+    helper's result is propagated with `?` (or the constructor sits in that helper too)."""
+    from hp import resolve_value
+    hfn = dict.get(facts.hir, fn_path)
+    if hfn is None:
+        return None, 'parser not found', 0
+    vh = H.inlined_fn(facts, hfn, depth=3, keep=('TimingPoint::new',))
+    ctx = Ctx(facts, H.binding_inits(vh), vh)
+    news, tests = [], []
+    order = {}
+
+    def visit(n, path):
+        order[id(n)] = len(order)
+        if n.get('k') == 'call' and n['f'].get('k') == 'path' and n['f'].get('def', '').endswith('timing::TimingPoint::new'):
+            news.append((n, path))
+        if n.get('k') == 'if':
+            nan = []
+
+            def conj(c, acc):
+                c = strip(c)
+                if isinstance(c, dict) and c.get('k') == 'binary' and c.get('op') == 'And':
+                    conj(c['a'], acc)
+                    conj(c['b'], acc)
+                else:
+                    acc.append(c)
+            cs = []
+            conj(n['c'], cs)
+            nan = [c for c in cs if isinstance(c, dict) and c.get('k') == 'mcall' and c.get('name') == 'is_nan']
+            rets = []
+            H.walk(n['t'], lambda x, anc: rets.append(x) if x.get('k') == 'ret' else None)
+            if len(nan) == 1 and rets and all('Err' in repr(r.get('e', {}).get('f', r.get('e', {}))) for r in rets):
+                tests.append((n, path, nan[0], [c for c in cs if c is not nan[0]]))
+    H.walk_paths(vh['body'], visit)
+    if not news:
+        return False, 'no TimingPoint::new call found in the parser or its helpers', 0
+
+    def cond_positions(path):
+        return [(id(a), k) for a, k in path if (a.get('k'), k) in COND_POS_]
+
+    for n, npath in news:
+        if len(n['args']) < 2:
+            return False, 'unexpected constructor arity', len(news)
+        want = canon(resolve_value(ctx, n['args'][1]))
+        n_guards = [canon(resolve_value(ctx, a['c'])) for a, k in npath if a.get('k') == 'if' and k == 't']
+        n_anc = {id(a) for a, k in npath}
+        n_cond = set(cond_positions(npath))
+        good = False
+        for tnode, tpath, nan_call, extra in tests:
+            if order[id(tnode)] >= order[id(n)]:
+                continue
+            if not set(cond_positions(tpath)) <= n_cond:
+                continue
+            if canon(resolve_value(ctx, nan_call['recv'])) != want:
+                continue
+            if any(canon(resolve_value(ctx, x)) not in n_guards for x in extra):
+                continue
+            # a return inside an inlined helper the constructor is not part of must be propagated by `?`
+            inl = [i for i, (a, k) in enumerate(tpath) if a.get('inl') and id(a) not in n_anc]
+            if inl:
+                outer = tpath[:inl[0]]
+                if not any(H.is_try(a) and k == 'scrut' for a, k in outer[-3:]):
+                    continue
+            good = True
+            break
+        if not good:
+            return False, 'constructor call at line %s has no such test' % n.get('ln'), len(news)
+    return True, '', len(news)
+
+
+COND_POS_ = H.COND_POS
+
 def run_c12(facts, out):
+    with_inlined_fallback(_run_c12, facts, out,
+                          '<section::timing_points::decode::TimingPoints as decode::DecodeBeatmap>::parse_timing_points',
+                          keep=('add_control_point', 'TimingPoint::new', 'DifficultyPoint::new', 'EffectPoint::new',
+                                'SamplePoint::new', 'parse_num', 'parse_with_limits'), depths=(0, 1, 2, 3))
+
+
+def _run_c12(facts, out):
     TIMING = '<section::timing_points::decode::TimingPoints as decode::DecodeBeatmap>::parse_timing_points'
     b = facts.body(TIMING)
     out.anchor('SS-C12', 'parse_timing_points', b is not None)
@@ -283,7 +365,7 @@ def run_c12(facts, out):
         # is_nan test dominates TimingPoint::new
         nanb = [bb for bb, t in b.calls() if callee_of(t) and callee_of(t)['name'] == 'is_nan']
         newb = [(bb, t) for bb, t in b.calls() if callee_of(t) and facts.ref_path(callee_of(t)['path']) == CP + 'timing::TimingPoint::new']
-        out.anchor('SS-C12', 'TimingPoint::new call in the parser', len(newb) == 1, '%d' % len(newb))
+        mir_ok = None
         for bb, t in newb:
             ok = False
             for nb in nanb:
@@ -294,9 +376,19 @@ def run_c12(facts, out):
                     for lab, tg in b.edges(tgt):
                         if lab == 0 and b.dominates(tg, bb):
                             ok = True
-            out.add('SS-C12', TIMING, 'nan-test-dominates-timing-point', loc_of(t['sp']), ok,
-                    '' if ok else 'a timing point can be built from a NaN beat length (no dominating is_nan early exit)',
-                    ordinal=False)
+            mir_ok = ok if mir_ok is None else (mir_ok and ok)
+        hir_ok, hir_why, n_new = (None, '', 0)
+        if not mir_ok or len(newb) != 1:
+            # the timing point may be built in a helper (parse-then-apply pipelines): same question on the parser
+            # with its crate-local calls inlined
+            hir_ok, hir_why, n_new = _nan_guard_hir(facts, TIMING)
+        out.anchor('SS-C12', 'TimingPoint::new call in the parser', len(newb) == 1 or n_new >= 1, '%d/%d' % (len(newb), n_new))
+        if newb or n_new:
+            ok = bool(mir_ok) and len(newb) == 1 or bool(hir_ok)
+            sp = loc_of(newb[0][1]['sp']) if newb else '%s:%d' % (b.file, b.line)
+            out.add('SS-C12', TIMING, 'nan-test-dominates-timing-point', sp, ok,
+                    '' if ok else ('a timing point can be built from a NaN beat length (no dominating is_nan early exit%s)'
+                                   % ('; ' + hir_why if hir_why else '')), ordinal=False)
         # scroll speed assigned only under mode in {Taiko, Mania}
         hfn = facts.hir.get(TIMING)
         ctx = Ctx(facts, H.binding_inits(hfn), hfn)
@@ -500,7 +592,7 @@ def _overwrites(facts, ctx, e):
 
 # ------------------------------------------------------------------------------ C14 structural
 
-def with_inlined_fallback(rule, facts, out, fn_path, keep=()):
+def with_inlined_fallback(rule, facts, out, fn_path, keep=(), depths=(0, 1, 2)):
     """run an HIR-shaped rule; if it cannot establish something on the function as written, retry on the
     function with its crate-local helper calls inlined (depth 1, then 2) and report the best outcome"""
     from common import Out
@@ -509,7 +601,7 @@ def with_inlined_fallback(rule, facts, out, fn_path, keep=()):
     if orig is None:
         rule(facts, out)
         return
-    for dpt in (0, 1, 2):
+    for dpt in depths:
         o = Out(getattr(out, 'cfg', 'x'))
         try:
             if dpt:
@@ -680,14 +772,9 @@ def run_c15(facts, out):
         c2 = Ctx(facts, H.binding_inits(h2), h2)
         cond = find(c2, h2['body'], BIN('Lt', F(ANY(), 'end_time'), F(L('h'), 'start_time')))
         sets = 0
-
-        def visit(n, anc):
-            nonlocal sets
-            if n.get('k') == 'assignop' and n.get('op') in ('BitOr', 'BitOrAssign'):
-                fc = H.field_chain(n['l'])
-                if fc and fc[1] == ['new_combo'] and L('force_new_combo').m(c2, n['r']):
-                    sets += 1
-        H.walk(h2['body'], visit)
+        for r_, mult, _n in H.new_combo_or_sites(facts, h2):
+            if L('force_new_combo').m(c2, r_):
+                sets += mult
         ok = bool(cond) and sets == 3
         bb = facts.body(pp)
         out.add('SS-C15', pp, 'new-combo-after-break', '%s:%d' % (bb.file, bb.line), ok,
@@ -919,12 +1006,23 @@ def run_c20(facts, out):
                 ok = 'tick_dist' not in fields and 'len' not in fields
                 out.add('SS-C20', gt, 'reverse-guard', loc_of(t['sp']), ok,
                         '' if ok else 'the buffer reversal depends on the tick distance')
-    # the two encoder callers derive their parameters identically
-    f1 = facts.hir.get('encode::slider_events')
-    f2 = facts.hir.get('encode::juicestream_events')
-    out.anchor('SS-C20', 'encoder callers slider_events / juicestream_events', f1 is not None and f2 is not None)
-    if f1 is not None and f2 is not None:
-        i1, i2 = H.binding_inits(f1), H.binding_inits(f2)
+    # the encoder callers (osu! sliders / catch juicestreams) derive their parameters identically:
+    # callers = the functions of the encoder that construct a SliderEventsIter
+    def _constructs_iter(h):
+        hit = []
+
+        def v(n, anc):
+            if n.get('k') == 'call' and n['f'].get('k') == 'path' and \
+                    n['f'].get('def', '').endswith('SliderEventsIter::<\'ticks_buf>::new'):
+                hit.append(n)
+            elif n.get('k') == 'call' and n['f'].get('k') == 'path' and 'SliderEventsIter' in n['f'].get('def', '') \
+                    and n['f'].get('def', '').endswith('::new'):
+                hit.append(n)
+        H.walk(h['body'], v)
+        return bool(hit)
+    callers = sorted(p_ for p_, h in facts.hir.items() if p_.startswith('encode::') and _constructs_iter(h))
+    out.anchor('SS-C20', 'encoder callers slider_events / juicestream_events', bool(callers), str(callers))
+    if callers:
         def local_callees(h):
             res = set()
 
@@ -935,27 +1033,37 @@ def run_c20(facts, out):
                     res.add(n['def'])
             H.walk(h['body'], v)
             return res
-        shared = local_callees(f1) & local_callees(f2)
-        shared_inits = {}
-        for sh in shared:
-            for k_, v_ in H.binding_inits(facts.hir[sh]).items():
-                shared_inits.setdefault(k_, []).extend(v_)
+        # functions that reach the constructor only through a shared helper count as its users
+        users = sorted(p_ for p_, h in facts.hir.items() if p_.startswith('encode::') and p_ not in callers
+                       and local_callees(h) & set(callers) and 'events' in p_)
+        group = users if len(users) >= 2 else callers
+        f1 = facts.hir[group[0]]
+        f2 = facts.hir[group[1]] if len(group) > 1 else None
+        shared = (local_callees(f1) & local_callees(f2)) if f2 is not None else set()
+        i1 = H.binding_inits(f1)
+        i2 = H.binding_inits(f2) if f2 is not None else None
         for nm in ('dist', 'span_count', 'span_duration', 'tick_dist_multiplier'):
+            if f2 is None:
+                # a single function serves every mode: one derivation by construction
+                out.add('SS-C20', group[0], 'same-derivation:' + nm, 'src/encode.rs', True, '',
+                        {'note': 'single constructor caller %s' % group[0]}, ordinal=False)
+                continue
             a = [canon(x) for x in i1.get(nm, [])]
             bq = [canon(x) for x in i2.get(nm, [])]
             ok = bool(a) and a == bq
             if not a and not bq and shared:
                 # both callers obtain it from the same helper: identical by construction
                 ok = True
-            out.add('SS-C20', 'encode::juicestream_events', 'same-derivation:' + nm, 'src/encode.rs', ok,
-                    '' if ok else '`%s` is derived differently in slider_events and juicestream_events' % nm, ordinal=False)
-        for nm, h in (('encode::slider_events', f1), ('encode::juicestream_events', f2)):
+            out.add('SS-C20', group[1], 'same-derivation:' + nm, 'src/encode.rs', ok,
+                    '' if ok else '`%s` is derived differently in %s and %s' % (nm, group[0], group[1]), ordinal=False)
+        for nm in group[:2]:
+            h = facts.hir[nm]
             ctx = Ctx(facts, H.binding_inits(h), h)
             pat = C('SliderEventsIter', L('start_time'), L('span_duration'), F(L('slider'), 'velocity'), L('tick_dist'),
                     L('dist'), L('span_count'), L('ticks'))
             ok = bool(find(ctx, h['body'], pat))
             if not ok:
-                for sh in shared:
+                for sh in (shared or set(callers)):
                     c3 = Ctx(facts, H.binding_inits(facts.hir[sh]), facts.hir[sh])
                     if find(c3, facts.hir[sh]['body'], pat):
                         ok = True
